@@ -94,6 +94,9 @@ pub enum CmdWrap {
     Fallback,
     /// `construct!([cmd1, cmd2, pure("nocmd")])`: the default is a last alternative
     PureAlt,
+    /// `construct!([pure("nocmd"), cmd1, cmd2])`: the default is the FIRST alternative; an
+    /// entered command still wins (deeper path), whether it then succeeds, fails or prints help
+    PureFirst,
 }
 #[derive(Clone, Debug, PartialEq, Eq, Hash, Serialize, Deserialize)]
 pub struct Level {
@@ -159,9 +162,12 @@ impl Level {
                 if *wrap == CmdWrap::PureAlt {
                     alts.push(P::Pure(Val::s(NOCMD)));
                 }
+                if *wrap == CmdWrap::PureFirst {
+                    alts.insert(0, P::Pure(Val::s(NOCMD)));
+                }
                 let c = P::Alt(alts);
                 ps.push(match wrap {
-                    CmdWrap::Required | CmdWrap::PureAlt => c,
+                    CmdWrap::Required | CmdWrap::PureAlt | CmdWrap::PureFirst => c,
                     CmdWrap::Optional => c.opt(),
                     CmdWrap::Fallback => c.fallback(Val::s(NOCMD)),
                 });
@@ -614,7 +620,7 @@ fn parse_level_inner(l: &Level, anc: &[&Level], evs: &[Ev], env: &Env) -> Out {
                 None => match wrap {
                     CmdWrap::Required => return Out::Fail,
                     CmdWrap::Optional => vals.push(Val::No),
-                    CmdWrap::Fallback | CmdWrap::PureAlt => vals.push(Val::s(NOCMD)),
+                    CmdWrap::Fallback | CmdWrap::PureAlt | CmdWrap::PureFirst => vals.push(Val::s(NOCMD)),
                 },
             }
         }
